@@ -2,6 +2,7 @@
    map IdSpec (Spec/Queues.lean), operation by operation -/
 import NngModel.Proofs.IdOps
 import NngModel.Proofs.IdSpecLemmas
+import NngModel.Generated.C18
 namespace Nng.IdHash
 open Nng.QSpec
 
